@@ -365,7 +365,7 @@ func queuexVariants(tier string) []vsched.Variant {
 
 func init() {
 	vsched.Register(&vsched.Harness{
-		Name: "queuex", Props: []string{"C12"}, Kind: "sched",
+		Name: "queuex", Props: []string{"C12", "C37"}, Kind: "sched",
 		Doc: "internal/queue: every operation sequence of depth <= 5 (thorough: 6 from capacity 1; from capacity 2 depth 5 plus depth 6 over a 13-operation subset), one ChooseFree per step, over {Add, AddMany 2|3, Remove, RemoveMany -1|1|2, RemoveManyInto (buf4,-1)|(buf1,2), " +
 			"RemoveManyIntoShrink (buf4,-1)|(buf2,2), FinishCollect 0|d, virtual time +d/2|+d (shrink timer fires), CloseRemaining, Close} from initial capacities {1,2}; " +
 			"a closing operation ends the sequence with a probe of all operations on the closed queue, otherwise the sequence ends with timer settle + drain; " +
